@@ -65,7 +65,7 @@ class TNone(Ty):
         return _sort_cache["None"]
 
     def value(self):
-        return self.sort().none_v
+        return self.sort().constructor(0)()
 
 
 NoneT = TNone()
@@ -113,19 +113,22 @@ class Seq(Ty):
     def sort(self):
         def build():
             d = z3.Datatype(_mangle(self.name))
-            d.declare("mk", ("arr", z3.ArraySort(z3.IntSort(), self.elem.sort())), ("len", z3.IntSort()))
+            m = _mangle(self.name)
+            d.declare("mk_" + m, ("arr_" + m, z3.ArraySort(z3.IntSort(), self.elem.sort())), ("len_" + m, z3.IntSort()))
             return d.create()
 
         return _dt(self.name, build)
 
     def mk(self, arr, ln):
-        return self.sort().mk(arr, ln)
+        return self.sort().constructor(0)(arr, ln)
 
     def arr(self, t):
-        return z3.simplify(self.sort().arr(t)) if _is_ctor(t) else self.sort().arr(t)
+        a = self.sort().accessor(0, 0)(t)
+        return z3.simplify(a) if _is_ctor(t) else a
 
     def len(self, t):
-        return z3.simplify(self.sort().len(t)) if _is_ctor(t) else self.sort().len(t)
+        a = self.sort().accessor(0, 1)(t)
+        return z3.simplify(a) if _is_ctor(t) else a
 
 
 class Set(Ty):
@@ -149,23 +152,26 @@ class Map(Ty):
     def sort(self):
         def build():
             d = z3.Datatype(_mangle(self.name))
+            m = _mangle(self.name)
             d.declare(
-                "mk",
-                ("dom", z3.ArraySort(self.key.sort(), z3.BoolSort())),
-                ("val", z3.ArraySort(self.key.sort(), self.val.sort())),
+                "mk_" + m,
+                ("dom_" + m, z3.ArraySort(self.key.sort(), z3.BoolSort())),
+                ("val_" + m, z3.ArraySort(self.key.sort(), self.val.sort())),
             )
             return d.create()
 
         return _dt(self.name, build)
 
     def mk(self, dom, val):
-        return self.sort().mk(dom, val)
+        return self.sort().constructor(0)(dom, val)
 
     def dom(self, t):
-        return z3.simplify(self.sort().dom(t)) if _is_ctor(t) else self.sort().dom(t)
+        a = self.sort().accessor(0, 0)(t)
+        return z3.simplify(a) if _is_ctor(t) else a
 
     def valarr(self, t):
-        return z3.simplify(self.sort().val(t)) if _is_ctor(t) else self.sort().val(t)
+        a = self.sort().accessor(0, 1)(t)
+        return z3.simplify(a) if _is_ctor(t) else a
 
 
 class Opt(Ty):
@@ -176,26 +182,27 @@ class Opt(Ty):
     def sort(self):
         def build():
             d = z3.Datatype(_mangle(self.name))
-            d.declare("none")
-            d.declare("some", ("val", self.inner.sort()))
+            m = _mangle(self.name)
+            d.declare("none_" + m)
+            d.declare("some_" + m, ("val_" + m, self.inner.sort()))
             return d.create()
 
         return _dt(self.name, build)
 
     def none(self):
-        return self.sort().none
+        return self.sort().constructor(0)()
 
     def some(self, v):
-        return self.sort().some(v)
+        return self.sort().constructor(1)(v)
 
     def is_none(self, t):
-        return self.sort().is_none(t)
+        return self.sort().recognizer(0)(t)
 
     def is_some(self, t):
-        return self.sort().is_some(t)
+        return self.sort().recognizer(1)(t)
 
     def val(self, t):
-        return self.sort().val(t)
+        return self.sort().accessor(1, 0)(t)
 
 
 class Tup(Ty):
@@ -206,16 +213,17 @@ class Tup(Ty):
     def sort(self):
         def build():
             d = z3.Datatype(_mangle(self.name))
-            d.declare("mk", *[(f"f{i}", t.sort()) for i, t in enumerate(self.items)])
+            m = _mangle(self.name)
+            d.declare("mk_" + m, *[(f"f{i}_{m}", t.sort()) for i, t in enumerate(self.items)])
             return d.create()
 
         return _dt(self.name, build)
 
     def mk(self, *vals):
-        return self.sort().mk(*vals)
+        return self.sort().constructor(0)(*vals)
 
     def get(self, t, i):
-        acc = getattr(self.sort(), f"f{i}")
+        acc = self.sort().accessor(0, i)
         return z3.simplify(acc(t)) if _is_ctor(t) else acc(t)
 
 
@@ -229,20 +237,20 @@ class Rec(Ty):
     def sort(self):
         def build():
             d = z3.Datatype(_mangle(self.name))
-            d.declare("mk", *[(f"{_mangle(self.name)}_{k}", t.sort()) for k, t in self.fields.items()])
+            d.declare("mk_" + _mangle(self.name), *[(f"{_mangle(self.name)}_{k}", t.sort()) for k, t in self.fields.items()])
             return d.create()
 
         return _dt("Rec:" + self.name, build)
 
     def mk(self, **vals):
-        return self.sort().mk(*[vals[k] for k in self.fields])
+        return self.sort().constructor(0)(*[vals[k] for k in self.fields])
 
     def get(self, t, k):
         acc = getattr(self.sort(), f"{_mangle(self.name)}_{k}")
         return z3.simplify(acc(t)) if _is_ctor(t) else acc(t)
 
     def set(self, t, k, v):
-        return self.sort().mk(*[v if f == k else self.get(t, f) for f in self.fields])
+        return self.sort().constructor(0)(*[v if f == k else self.get(t, f) for f in self.fields])
 
 
 class Union(Ty):
